@@ -298,4 +298,19 @@ func init() {
 		}
 		props["C09"] = p
 	}
+
+	// ---- C02 ----
+	{
+		p := &Prop{ID: "C02", Outside: []string{
+			"goroutine scheduling, GOMAXPROCS, repeated process executions: the scheduler is not SSA (C20 covers the result-collection protocol; C10 the absence of shared writes)",
+			"workflows other than the seven of the corpus (each has several diagnostics per position / several candidates); maps with more than 3 entries are iterated in 3 transformed orders (reversed, rotated by 1, rotated by n/2) instead of all n!",
+			"native confirmation of an order dependence uses Go's own randomised iteration (60 repetitions)",
+		}}
+		p.Quick = []HRun{
+			{Entry: "HarnessC02MapOrder", Bound: "7 workflows x every function that ranges over a map of >= 2 entries (discovered by a recording run) x every iteration order of that function's maps", Require: []string{"compared", "several-diagnostics"}},
+			{Entry: "HarnessC02WorkflowCall", Bound: "local reusable workflow with 3 required inputs and 3 required secrets, none supplied: all 36 orders", Require: []string{"compared"}},
+		}
+		p.Thorough = p.Quick
+		props["C02"] = p
+	}
 }
